@@ -216,6 +216,7 @@ func runListen(n, A, K, mode int, s uint64, stats map[string]int) ([]event, [][2
 		acceptors.Wait()
 		closers.Wait()
 		closer.Wait()
+		var pending []net.Conn
 		if mode == 0 {
 			// every slot must be free again: n more Accepts succeed without blocking
 			var cs []net.Conn
@@ -227,14 +228,16 @@ func runListen(n, A, K, mode int, s uint64, stats map[string]int) ([]event, [][2
 				}
 				cs = append(cs, c)
 			}
-			for _, c := range cs {
-				c.Close()
-			}
+			// close the listener while all n slots are taken: Accept must still return at once
 			closeListener(recs[A])
+			pending = cs
 		}
-		// Accept after Close: returns an error, does not block
+		// Accept after Close: returns an error, does not block (even with the semaphore full)
 		if c, err := l.Accept(); err == nil {
 			fails.add("accept-after-close", "Accept after Close returned a connection")
+			c.Close()
+		}
+		for _, c := range pending {
 			c.Close()
 		}
 		if o := atomic.LoadInt32(&inner.open); o != 0 {
